@@ -32,8 +32,11 @@ func (r Targets) Len() int {
 }
 
 func (r Targets) Less(i, j int) bool {
-	return r[i].LocalAddr.String() < r[j].LocalAddr.String() ||
-		r[i].Addr.String() < r[j].Addr.String()
+	li, lj := r[i].LocalAddr.String(), r[j].LocalAddr.String()
+	if li != lj {
+		return li < lj
+	}
+	return r[i].Addr.String() < r[j].Addr.String()
 }
 
 func (r Targets) Swap(i, j int) {
